@@ -259,9 +259,26 @@ func selectOp(fr *frame, instr *ssa.Select) value {
 // ---- synchronisation callbacks ----
 
 type lockState struct {
-	writer  bool
-	readers int
-	name    string
+	writerBy  int         // thread holding it exclusively, -1 if none
+	readersBy map[int]int // shared holds per thread
+	name      string
+	init      bool
+}
+
+func (l *lockState) ensure() {
+	if !l.init {
+		l.init = true
+		l.writerBy = -1
+		l.readersBy = map[int]int{}
+	}
+}
+
+func (l *lockState) readers() int {
+	n := 0
+	for _, c := range l.readersBy {
+		n += c
+	}
+	return n
 }
 
 // onSync calls the harness scheduler hook, if one was installed with
@@ -302,44 +319,46 @@ func (px *PathCtx) lockOf(p *value) *lockState {
 
 func (px *PathCtx) lockOp(fr *frame, p *value, op string) {
 	l := px.lockOf(p)
+	l.ensure()
+	me := px.curThread
 	switch op {
 	case "Lock":
 		px.onSync(fr, "lock")
-		if l.writer || l.readers > 0 {
-			px.blocked(fr, "Lock", func() bool { return !l.writer && l.readers == 0 })
+		if l.writerBy >= 0 || l.readers() > 0 {
+			px.blocked(fr, "Lock", func() bool { return l.writerBy < 0 && l.readers() == 0 })
 		}
-		l.writer = true
+		l.writerBy = me
 	case "Unlock":
-		if !l.writer {
+		if l.writerBy < 0 {
 			panic(targetPanic{v: iface{t: fr.i.runtimeErrorString, v: "sync: unlock of unlocked mutex"}, where: fr.where()})
 		}
-		l.writer = false
+		l.writerBy = -1
 		px.onSync(fr, "unlock")
 	case "RLock":
 		px.onSync(fr, "rlock")
-		if l.writer {
-			px.blocked(fr, "RLock", func() bool { return !l.writer })
+		if l.writerBy >= 0 {
+			px.blocked(fr, "RLock", func() bool { return l.writerBy < 0 })
 		}
-		l.readers++
+		l.readersBy[me]++
 	case "RUnlock":
-		if l.readers <= 0 {
+		if l.readersBy[me] <= 0 {
 			panic(targetPanic{v: iface{t: fr.i.runtimeErrorString, v: "sync: RUnlock of unlocked RWMutex"}, where: fr.where()})
 		}
-		l.readers--
+		l.readersBy[me]--
 		px.onSync(fr, "runlock")
-	case "TryLock":
-	}
-	if px.shared != nil {
-		px.shared.lockEvent(p, op)
 	}
 }
 
+// heldLocks returns the locks the current thread holds exclusively / shared.
 func (px *PathCtx) heldLocks() (w []*value, r []*value) {
 	for p, l := range px.locks {
-		if l.writer {
+		if !l.init {
+			continue
+		}
+		if l.writerBy == px.curThread {
 			w = append(w, p)
 		}
-		if l.readers > 0 {
+		if l.readersBy[px.curThread] > 0 {
 			r = append(r, p)
 		}
 	}
@@ -358,13 +377,60 @@ type sharedTracker struct {
 
 func (st *sharedTracker) lockEvent(p *value, op string) {}
 
+type watchAccess struct {
+	write bool
+	held  map[*value]bool // locks that protect this access (write: held exclusively; read: held in any mode)
+	where string
+}
+
+type watchState struct {
+	names map[*value]string
+	acc   map[string][]watchAccess
+	order []string
+	on    bool
+}
+
+func (px *PathCtx) watchAccess(fr *frame, p *value, write bool) {
+	w := px.watch
+	if w == nil || !w.on {
+		return
+	}
+	name, ok := w.names[p]
+	if !ok {
+		return
+	}
+	held := map[*value]bool{}
+	for lp, l := range px.locks {
+		if !l.init {
+			continue
+		}
+		if l.writerBy == px.curThread || (!write && l.readersBy[px.curThread] > 0) {
+			held[lp] = true
+		}
+	}
+	if _, seen := w.acc[name]; !seen {
+		w.order = append(w.order, name)
+	}
+	w.acc[name] = append(w.acc[name], watchAccess{write: write, held: held, where: fr.where()})
+}
+
 func (px *PathCtx) onStore(fr *frame, p *value) {
 	if px.shared != nil && px.shared.frozen {
 		px.shared.store(px, fr, p)
 	}
+	if px.watch != nil {
+		px.watchAccess(fr, p, true)
+	}
 }
-func (px *PathCtx) onLoad(fr *frame, p *value)      {}
-func (px *PathCtx) onMapRead(fr *frame, m *amap)    {}
+
+func (px *PathCtx) onLoad(fr *frame, p *value) {
+	if px.watch != nil {
+		px.watchAccess(fr, p, false)
+	}
+}
+
+func (px *PathCtx) onMapRead(fr *frame, m *amap) {}
+
 func (px *PathCtx) onMapWrite(fr *frame, m *amap) {
 	if px.shared != nil && px.shared.frozen && px.shared.maps[m] {
 		w, _ := px.heldLocks()
@@ -372,6 +438,68 @@ func (px *PathCtx) onMapWrite(fr *frame, m *amap) {
 			px.shared.writes = append(px.shared.writes, "map update at "+fr.where())
 		}
 	}
+}
+
+// onBulkStore: copy / append writing into cells of a slice.
+func (px *PathCtx) onBulkStore(fr *frame, cells []value) {
+	if px.shared != nil && px.shared.frozen {
+		for i := range cells {
+			px.shared.store(px, fr, &cells[i])
+		}
+	}
+}
+
+// watchReport applies the lock-set rule: a location that is written at least once after watching began must
+// have a lock that is held at every access (exclusively at every write).
+func (px *PathCtx) watchReport() []string {
+	var out []string
+	w := px.watch
+	if w == nil {
+		return nil
+	}
+	for _, name := range w.order {
+		accs := w.acc[name]
+		written := false
+		for _, a := range accs {
+			if a.write {
+				written = true
+			}
+		}
+		if !written {
+			continue
+		}
+		common := map[*value]bool{}
+		for lp := range accs[0].held {
+			common[lp] = true
+		}
+		for _, a := range accs[1:] {
+			for lp := range common {
+				if !a.held[lp] {
+					delete(common, lp)
+				}
+			}
+		}
+		if len(common) == 0 {
+			// name the first unprotected or conflicting pair
+			desc := name + ": no lock is held at every access:"
+			n := 0
+			for _, a := range accs {
+				if len(a.held) == 0 || a.write {
+					kind := "read"
+					if a.write {
+						kind = "write"
+					}
+					desc += fmt.Sprintf(" %s at %s holding %d lock(s);", kind, a.where, len(a.held))
+					n++
+					if n >= 3 {
+						break
+					}
+				}
+			}
+			out = append(out, desc)
+		}
+	}
+	return out
 }
 
 func (st *sharedTracker) store(px *PathCtx, fr *frame, p *value) {
